@@ -93,7 +93,7 @@ CHECKS = {
                      "(3) the real _extract/_extract_single run on an in-memory POSIX filesystem model for archives of up to 3 "
                      "entries (links, files, directories; names and link targets symbolic choices from tables, incl. a sibling "
                      "directory sharing the destination's name as prefix): every mkdir/open/symlink/chmod/utime lands physically "
-                     "inside the destination (open known finding K06: a chain of individually acceptable links is followed).",
+                     "inside the destination (this found the chain-of-links escape, repaired as F29).",
                 note="pathlib model validated against real PurePosixPath each run, the filesystem model against the real OS on a "
                      "scripted battery each run; alphabet/length/tables are the bound; races, Windows junctions, pre-existing "
                      "links in the destination are outside"),
